@@ -1,5 +1,6 @@
 SPECIFICATION Spec
 CONSTANTS
+  Flavour = "ip"
   MaxV = 2
   InitVers = {1}
   InitCaches = {11}
